@@ -682,6 +682,8 @@ def make_fault_wrapper():
                 return d
             if isinstance(act, tuple) and act[0] == "delay":
                 d2 = defer.Deferred()
+                if len(act) > 2 and act[2] == "error":      # the answer is late *and* an error
+                    d.addBoth(lambda r: Failure(grid.IntentionalError("injected late error in %s" % methname)))
                 d.addBoth(lambda r: self.rt.clock.callLater(act[1], d2.callback, r))
                 return d2
             if act == "hang":
@@ -719,15 +721,26 @@ def fault_grid(seed, policy, tag, **kw):
             _tlog.defaultObserver = None
     except Exception:
         pass
+    import time as _time
+    import allmydata.immutable.downloader.finder as _finder
+    saved_now = _finder.now
     try:
         with grid.Runtime(seed=seed, policy=policy) as rt:
+            # finder.py binds `now = time.time` at import, so the Runtime's virtual clock does not reach
+            # it: DYHB round-trip times (the fetcher's sort key) would be wall-clock noise.  Use the
+            # virtual clock: rtt = injected delay, ties broken by share number.
+            _finder.now = _time.time
             g = grid.Grid(grid.fresh_dir(tag), rt, **kw)
             try:
                 yield rt, g
             finally:
                 g.close()
     finally:
+        _finder.now = saved_now
         grid.LocalWrapper = saved
+
+
+WAIT_STATS = {}
 
 
 def wait_all(rt, ds, horizon=400.0, max_steps=400000):
@@ -740,6 +753,7 @@ def wait_all(rt, ds, horizon=400.0, max_steps=400000):
         d.addBoth(b.append)
     t0 = rt.clock.seconds()
     steps = 0
+    busy, thresh = 0, 5000
     while True:
         steps += 1
         if steps > max_steps:
@@ -747,7 +761,19 @@ def wait_all(rt, ds, horizon=400.0, max_steps=400000):
         if all(boxes) and not rt.pending_now():
             break
         if rt.step():
+            # Real time passes even while the system is busy.  The grid's clock only moves when nothing
+            # is deliverable, so a component that keeps itself busy at one instant (Share re-requests a
+            # span it already knows is unavailable on every answer, as long as another answer is
+            # outstanding) would starve every timer: after a long busy stretch, let time move on.
+            busy += 1
+            if busy > thresh:
+                future = [c.getTime() for c in rt.clock.getDelayedCalls() if c.getTime() > rt.clock.seconds()]
+                if future and min(future) - t0 <= horizon:
+                    rt.clock.advance(min(future) - rt.clock.seconds())
+                    WAIT_STATS["forced-time-advance"] = WAIT_STATS.get("forced-time-advance", 0) + 1
+                busy, thresh = 0, 200
             continue
+        busy, thresh = 0, 5000
         if all(boxes):
             break
         calls = rt.clock.getDelayedCalls()
@@ -992,4 +1018,110 @@ def run_scenario(sc, on_read=None):
             out["groups"].append(outs)
         dn = node._cnode._node
         out["active_segment_left"] = dn._active_segment is not None
+    return out
+
+
+# ----------------------------------------------------------------------------- a share that dies while nobody listens
+
+def gen_late_error_scenario(rng, canonical=False):
+    """4 servers with one share each of a 2-of-4 multi-segment file.  Roles (assigned after the upload
+    from the finder's server order): V and C answer the DYHB first, so the fetcher of segment 0 uses
+    them; V's follow-up speculative read (issued after its first answer, not needed for any block) is
+    answered late and with an error — after the block of segment 0 was delivered, i.e. while the share
+    has no observer.  C answers block reads slowly and its block of segment `corrupt_seg` is corrupt.
+    A (lower share number than V) and L (late DYHB answer) are intact on answering servers."""
+    segsize = 1024 if canonical else rng.choice([1024, 1024, 512, 2048])
+    nseg = 4 if canonical else rng.choice([2, 3, 4, 6])
+    return {"kind": "late-error", "k": 2, "n": 4, "servers": 4, "segsize": segsize,
+            "size": segsize * nseg - (0 if canonical else rng.choice([0, 0, 1, 100])),
+            "grid_seed": 1 if canonical else rng.randrange(1 << 30),
+            "policy": "fifo" if canonical else rng.choice(["fifo", "fifo", "random"]),
+            "dataseed": 5 if canonical else rng.randrange(1 << 30),
+            "hold_nth": 3 if canonical else rng.choice([3, 3, 3, 2, 4]),   # 3 = the follow-up speculative read
+            "corrupt_seg": 1 if canonical else rng.randrange(1, nseg),
+            "error_delay": 40 if canonical else rng.choice([40, 40, 60, 10, 0]),   # F2 is built at `slow`, C's bad block arrives at 2*slow
+            "slow": 25 if canonical else rng.choice([25, 25, 5, 0])}
+
+
+def run_late_error(sc):
+    import random
+    import time as _time
+    from allmydata.immutable import upload
+    from allmydata.util.consumer import MemoryConsumer
+    from allmydata import uri
+    import allmydata.immutable.downloader.share as sm
+    rnd = random.Random(sc["dataseed"])
+    data = bytes(rnd.randrange(256) for _ in range(sc["size"]))
+    out = {"upload": "ok", "silent_death": 0, "dead_get_block": 0, "death_with_observer": 0}
+    with fault_grid(sc["grid_seed"], sc["policy"], "c03le", num_servers=sc["servers"], num_clients=1,
+                    k=sc["k"], happy=1, n=sc["n"], max_segment_size=sc["segsize"]) as (rt, g):
+        c = g.clients[0]
+        (st, res), = wait_all(rt, [c.upload(upload.Data(data, convergence=b"c" * 16))])
+        if st != "ok":
+            out["upload"] = st
+            return out
+        cap = res.get_uri()
+        si = uri.from_string(cap).get_storage_index()
+        files = {}
+        for (srv, shnum, path) in g.share_files(si):
+            files.setdefault(srv, []).append((shnum, path))
+        if len(files) != 4 or any(len(v) != 1 for v in files.values()):
+            out["upload"] = "placement"
+            return out
+        order = [s for s in (g.broker.servers.index(x) for x in g.broker.get_servers_for_psi(si)) if s in files]
+        shn = {s: files[s][0][0] for s in files}
+        first2 = order[:2]
+        V = max(first2, key=lambda s: shn[s])
+        C = [s for s in first2 if s != V][0]
+        rest = sorted(order[2:], key=lambda s: shn[s])
+        A, L = rest[0], rest[1]
+        out["roles"] = {"V": [V, shn[V]], "C": [C, shn[C]], "A": [A, shn[A]], "L": [L, shn[L]]}
+        out["good"] = sorted([shn[A], shn[L]])
+        # C: corrupt block of one later segment, slow reads
+        base, ver, bs, ds, o, b = share_layout(files[C][0][1])
+        pos = base + o["data"] + sc["corrupt_seg"] * bs + 3
+        if pos < base + o["plaintext_hash_tree"]:
+            bb = bytearray(b)
+            bb[pos] ^= 0x10
+            with open(files[C][0][1], "wb") as f:
+                f.write(bytes(bb))
+        slow = sc["slow"]
+        g.wrappers[C].plan = (lambda m, i: ("delay", slow) if (m == "read" and slow) else None)
+        cnt = {"v": 0}
+
+        def vplan(m, i):
+            if m != "read":
+                return None
+            cnt["v"] += 1
+            if cnt["v"] == sc["hold_nth"]:
+                return ("delay", sc["error_delay"], "error")
+            return None
+        g.wrappers[V].plan = vplan
+        g.wrappers[L].plan = lambda m, i: ("delay", 1) if m == "get_buckets" else None
+        orig_fail, orig_gb = sm.Share._fail, sm.Share.get_block
+
+        def fl(self, f, *a, **kw):
+            if sum(len(ob) for _, ob in self._requested_blocks) == 0:
+                out["silent_death"] += 1
+            else:
+                out["death_with_observer"] += 1
+            return orig_fail(self, f, *a, **kw)
+
+        def gb(self, segnum):
+            if not self._alive:
+                out["dead_get_block"] += 1
+            return orig_gb(self, segnum)
+        sm.Share._fail, sm.Share.get_block = fl, gb
+        try:
+            node = c.create_node_from_uri(cap)
+            mc = MemoryConsumer()
+            (st, val), = wait_all(rt, [node.read(mc, 0, sc["size"])], horizon=400 + 20 * slow)
+        finally:
+            sm.Share._fail, sm.Share.get_block = orig_fail, orig_gb
+        if st == "ok":
+            out["result"] = "ok" if b"".join(mc.chunks) == data else "wrong-data"
+        elif st == "err":
+            out["result"] = val.value.__class__.__name__
+        else:
+            out["result"] = "stuck"
     return out
